@@ -1,6 +1,7 @@
 package checks
 
 import (
+	"strings"
 	"encoding/binary"
 	"fmt"
 
@@ -333,6 +334,51 @@ func runC14(r *mc.Run) {
 		}
 	}
 
+	// near-miss entries of the allowed-MR_TD list and near-miss values of the byte fields: the same bit flipped in
+	// two bytes, and two 8-byte groups exchanged (differences that cancel in a folded comparison)
+	{
+		mr := raw0[48+136 : 48+184]
+		nearMiss := func(v []byte, visit func(name string, w []byte)) {
+			for _, bit := range []uint{0, 7} {
+				for a := 0; a < len(v); a++ {
+					for b := a + 1; b < len(v); b++ {
+						w := append([]byte(nil), v...)
+						w[a] ^= 1 << bit
+						w[b] ^= 1 << bit
+						visit(fmt.Sprintf("bit%d@%d,%d", bit, a, b), w)
+					}
+				}
+			}
+			for a := 0; a+8 <= len(v); a += 8 {
+				for b := a + 8; b+8 <= len(v); b += 8 {
+					w := append([]byte(nil), v...)
+					copy(w[a:a+8], v[b:b+8])
+					copy(w[b:b+8], v[a:a+8])
+					visit(fmt.Sprintf("swap8@%d,%d", a, b), w)
+				}
+			}
+		}
+		nearMiss(mr, func(name string, w []byte) {
+			p := &ccpb.Policy{}
+			tp(p).AnyMrTd = [][]byte{w}
+			add("nearmiss/any_mr_td/"+name, p)
+		})
+		for _, f := range polFields {
+			if f.name == "minimum_tee_tcb_svn" {
+				continue
+			}
+			f := f
+			nearMiss(val(f), func(name string, w []byte) {
+				if !r.Thorough() && f.len > 16 && !strings.HasPrefix(name, "swap8") && !strings.HasPrefix(name, "bit7@") {
+					return
+				}
+				p := &ccpb.Policy{}
+				f.set(p, w)
+				add("nearmiss/"+f.name+"/"+name, p)
+			})
+		}
+	}
+
 	done := r.Parallel(len(cases), func(i int) {
 		c := cases[i]
 		if !r.Want(c.id) {
@@ -364,7 +410,10 @@ func runC14(r *mc.Run) {
 			out = "converts!"
 		}
 		if err == nil && opts != nil {
-			for _, q := range quotes {
+			for qi, q := range quotes {
+				if qi > 0 && strings.HasPrefix(c.id, "nearmiss/") && !strings.HasPrefix(q.name, "miss-") {
+					continue // near-miss values are about the field's own comparison: the satisfying quote and the one-field misses
+				}
 				id := c.id + "@" + q.name
 				verr := safeValidateRaw(q.raw, opts)
 				rp, _ := ref.ParseQuote(q.raw)
